@@ -24,6 +24,45 @@ class JaxModel:
         self.n_points = {"like": 0, "prior": 0}
         self.n_concrete_like_calls = 0
         self.crash_at_concrete_like = None  # crash seam: raise at this (0-based) eager likelihood call
+        # C17 at this model seam: every likelihood call must come with the log-prior of exactly those points
+        self.c17_failures = []  # dicts (why, traced?)
+        self.c17_checked = {"concrete_calls": 0, "traced_calls": 0, "traced_points": 0}
+
+    def _own_prior(self, x):
+        """numpy twin of log_prior (box and optional hole), independent of what the caller attached"""
+        x = np.asarray(x, dtype=np.float64).reshape(-1, self.t.dims)
+        lo, hi = np.asarray(self.t.lower, dtype=np.float64), np.asarray(self.t.upper, dtype=np.float64)
+        inside = np.all((x >= lo) & (x <= hi), axis=-1)
+        if self.t.prior_hole is not None:
+            d, a, b = self.t.prior_hole
+            inside = inside & ~((x[:, d] > a) & (x[:, d] < b))
+        return np.where(inside, -np.sum(np.log(hi - lo)), -np.inf)
+
+    def _check_pair(self, x, lp, traced=True):
+        want = self._own_prior(x)
+        got = np.asarray(lp, dtype=np.float64).reshape(-1)
+        if traced:
+            self.c17_checked["traced_points"] += len(want)
+        ok = got.shape == want.shape and np.all((got == want) | (np.isclose(got, want, rtol=1e-12, atol=1e-12)))
+        if not ok and len(self.c17_failures) < 20:
+            self.c17_failures.append({"why": "attached log_prior is not the prior of these points", "traced": bool(traced),
+                                      "x": np.asarray(x, dtype=np.float64).reshape(-1, self.t.dims)[:2].tolist(),
+                                      "attached": got[:2].tolist(), "prior": want[:2].tolist()})
+
+    def _c17(self, samples, x):
+        import jax
+
+        lp = getattr(samples, "log_prior", None)
+        traced = isinstance(x, jax.core.Tracer)
+        self.c17_checked["traced_calls" if traced else "concrete_calls"] += 1
+        if lp is None:
+            if len(self.c17_failures) < 20:
+                self.c17_failures.append({"why": "no log_prior attached to the sample set handed to the likelihood", "traced": bool(traced)})
+            return
+        if traced or isinstance(lp, jax.core.Tracer):
+            jax.debug.callback(self._check_pair, x, lp)  # values exist only when the traced program runs
+        else:
+            self._check_pair(x, lp, traced=False)
 
     def _note(self, kind, x):
         import jax
@@ -57,6 +96,7 @@ class JaxModel:
         t = self.t
         x = samples.x
         self._note("like", x)
+        self._c17(samples, x)
         out = jnp.zeros(x.shape[:-1], dtype=x.dtype) + float(t.c)
         for i in range(t.dims):
             xi = x[..., i]
